@@ -46,6 +46,10 @@ def run(ck: Check, prog: Program) -> None:
 
 
 MUTANTS = [
+    dict(name='memoised-backoff-iterator', file='pjrpc/client/retry.py', nth=2,
+         find='    def __call__(self) -> Iterator[float]:\n', replace='    @ft.lru_cache(maxsize=None)\n    def __call__(self) -> Iterator[float]:\n',
+         also=[dict(file='pjrpc/client/retry.py', find='import itertools as it\n', replace='import functools as ft\nimport itertools as it\n')],
+         expect='BACKOFF-BOUND'),
     dict(name='delay-truthiness', file='pjrpc/client/retry.py', nth=0, find='                    if delay is not None:', replace='                    if delay:',
          expect='RETRY-BOUND'),
     dict(name='sleep-after-final-attempt', file='pjrpc/client/retry.py', nth=0,
